@@ -578,4 +578,80 @@ def clear_complete(repo: Repo) -> RuleRun:
 clear_complete.rule_id = "C02.CLEAR-COMPLETE"
 
 
-RULES = [set_order, progress_flag, fixpoint_schedules, copy_carries_count, no_spurious_conflict, undefined_raises, grade_before_write, det_sources, neighbour_symmetry, axis_length, grade_idempotent, coincidence_symmetry, clear_complete]
+def collapsed_edge(repo: Repo, prop: str = PROP, rule: str = "C02.COLLAPSED-EDGE") -> RuleRun:
+    """'... writing terminates and gives every block direction of that family the count derived from that chop': a block may have
+    collapsed edges (a wedge standing on its axis, a prism) - Edge.is_valid expects them. Such an edge has length 0, and the grading
+    relations refuse a length of 0: wherever the library special-cases it, grading an axis that has a collapsed wire must not end
+    in that refusal. Abstract run of grade() of both wire-manager classes (with the real Wire.add_chop / Grading.add_chop below
+    them; Chop.calculate modelled as refusing a non-positive length) on four wires of which one has length 0."""
+    from ..peval import NO_MATCH, Evaluator, NotEvaluable, Obj, Raised, Sym
+
+    r = RuleRun(prop, rule, floor=2, what="grading an axis one of whose four wires is collapsed (length 0) does not run into the relations' refusal of a zero length; the collapsed wire gets the family's count")
+    base = repo.cls("items.wires.manager.WireManagerBase")
+    wire_cls, grading_cls = repo.cls("items.wires.wire.Wire"), repo.cls("grading.grading.Grading")
+    for cls in sorted((c for c in repo.subclasses(base) if c is not base and "grade" in c.methods), key=lambda c: c.qualname):
+        fn = cls.methods["grade"]
+        lengths = [1.0, 0.0, 1.0, 0.0] if False else [1.0, 1.0, 0.0, 1.0]
+        wires = []
+        for i, ln in enumerate(lengths):
+            w = Obj(f"w{i}", cls=wire_cls)
+            w.set("edge", Obj(f"e{i}", length=ln, kind="line"))
+            w.set("vertices", [Sym(f"va{i}"), Sym(f"va{i}" if ln == 0 else f"vb{i}")])
+            w.set("corners", [0, 1])
+            w.set("axis", 0)
+            w.set("coincidents", set())
+            g = Obj(f"g{i}", cls=grading_cls)
+            g.set("length", ln)
+            g.set("specification", [])
+            w.set("grading", g)
+            wires.append(w)
+        chop = Obj("chop", count=5, length_ratio=1.0)
+        mgr = Obj("mgr", cls=cls)
+        mgr.set("wires", wires)
+        mgr.set("chops", [chop])
+        ag = Obj("axis-grading", cls=grading_cls)
+        ag.set("length", 0.75)
+        ag.set("specification", [])
+        mgr.set("grading", ag)
+
+        def hook(ev, call: ast.Call, name):
+            f_ = call.func
+            if isinstance(f_, ast.Attribute) and f_.attr == "calculate":
+                ln = ev.eval(call.args[0])
+                if isinstance(ln, (int, float)) and ln <= 0:
+                    raise Raised("ValueError")  # relations._validate_length: 'Length must be positive'
+                return (5, Sym("expansion"))
+            if isinstance(f_, ast.Attribute) and f_.attr == "copy_preserving":
+                return chop
+            if name == "sum":
+                return 3.0
+            return NO_MATCH
+
+        ev = Evaluator(repo=repo, module=fn.module, call_hook=hook, max_steps=200000)
+        ev.float_arith = True
+        try:
+            ev.call_funcinfo(fn, [mgr])
+            got = None
+        except Raised as err:
+            got = err.exc_name
+        except NotEvaluable as err:
+            raise AnalysisError(f"{cls.name}.grade not evaluable on the collapsed-wire model: {err}") from err
+        spec = wires[2].get("grading").get("specification") if isinstance(wires[2].get("grading"), Obj) else None
+        ok = got is None and isinstance(spec, list) and len(spec) == 1 and spec[0][1] == 5
+        r.check(
+            ok,
+            fn,
+            f"{cls.name}: axis with a collapsed wire is graded, the wire gets count 5",
+            f"{cls.name}.grade on an axis whose third wire is collapsed (length 0): "
+            + (f"raises {got} - the relations refuse a zero length" if got else f"the collapsed wire ends with the specification {spec}")
+            + "; a block with a collapsed edge (a Wedge whose face touches the axis, a prism Loft) cannot be written although every family has a chop: 'ValueError: Length must be positive, got 0.0'",
+            fn.node,
+            key=f"collapsed:{cls.name}",
+        )
+    return r
+
+
+collapsed_edge.rule_id = "C02.COLLAPSED-EDGE"
+
+
+RULES = [set_order, progress_flag, fixpoint_schedules, copy_carries_count, no_spurious_conflict, undefined_raises, grade_before_write, det_sources, neighbour_symmetry, axis_length, grade_idempotent, coincidence_symmetry, clear_complete, collapsed_edge]
